@@ -62,7 +62,10 @@ Lemma fixed_surgery :
   (Fb w_altref = true /\ agrees w_altref W8 = true /\ In (2, 3) (model_tags w_altref W8)) /\
   (Fb w_ref2 = true /\ agrees w_ref2 W8 = true /\ In (2, 2) (model_tags w_ref2 W8)) /\
   (Fb w_alt_ref = true /\ agrees w_alt_ref W8 = true /\ In (1, 1) (model_tags w_alt_ref W8)).
-Proof. repeat split; try (vm_compute; reflexivity); vm_compute; tauto. Qed.
+Proof.
+  repeat match goal with |- _ /\ _ => split end;
+    first [vm_compute; reflexivity | vm_compute; tauto].
+Qed.
 Lemma refuted_next :
   (Gb w_next = true /\ agrees w_next W8 = false /\ In (1, 1) (rdr w_next W8) /\ ~ In (1, 1) (model_tags w_next W8)) /\
   (Gb w_alt_next = true /\ agrees w_alt_next W8 = false /\ In (2, 1) (rdr w_alt_next W8) /\ ~ In (2, 1) (model_tags w_alt_next W8)).
@@ -71,9 +74,11 @@ Proof.
           vm_compute; intuition congruence).
 Qed.
 
-(* C08-g: an alternative written after a next_rule fires also for the elements for which the base rule fired
-   (Next is a Union: its second pass yields a false row, which the enclosing Alternative takes as "nothing fired") *)
-Definition w_next_alt := Rule (cnd CLe 1) (Some 0) [(KNext, leafr CEq 3 1); (KAlt, leafr CLe 4 2)].
+(* C08-g: an alternative written after a next_rule fires also for the elements for which the base rule fired.
+   Next is a Union: its second pass yields a false row for an element whose left side held, and the enclosing
+   Alternative takes that row as "nothing fired".  On the current code the extra conclusion is then usually dropped by
+   concluded_before (the cause of C08-d/e); it shows when the earlier branch concluded nothing, as here (base without Add). *)
+Definition w_next_alt := Rule (cnd CLe 1) None [(KNext, leafr CEq 3 1); (KAlt, leafr CLe 4 2)].
 Lemma refuted_next_alt :
   Gb w_next_alt = true /\ agrees w_next_alt W8 = false /\
   ~ In (2, 0) (rdr w_next_alt W8) /\ In (2, 0) (model_tags w_next_alt W8).
